@@ -202,8 +202,10 @@ func removeKid(p *mnode, at int) {
 	p.Kids = append(p.Kids[:at:at], p.Kids[at+1:]...)
 }
 
-func st(kw, arg string, kids ...*mnode) *mnode { return &mnode{Kw: kw, Arg: arg, HasArg: true, Kids: kids} }
-func st0(kw string, kids ...*mnode) *mnode      { return &mnode{Kw: kw, Kids: kids} }
+func st(kw, arg string, kids ...*mnode) *mnode {
+	return &mnode{Kw: kw, Arg: arg, HasArg: true, Kids: kids}
+}
+func st0(kw string, kids ...*mnode) *mnode { return &mnode{Kw: kw, Kids: kids} }
 
 // modInfo finds name and prefix of the (sub)module a site belongs to.
 func modInfo(s site) (top *mnode, name, prefix string) {
